@@ -214,6 +214,13 @@ fn battery(t: &mut T, rng: &mut Rng, d: &Dense, pat: &[bool]) {
             let mut y = y0.clone();
             clarabel::verif::gemv(&M, false, &mut y, &x, a, b);
             t.vec("gemv_N", &y, &want, &json!({"M": inp, "x": x, "y": y0, "a": a, "b": b}));
+            if b == 0.0 {
+                // b = 0 means "overwrite": whatever the output buffer held - NaN and infinities included - is gone
+                let mut y: Vec<f64> = (0..m).map(|i| [f64::NAN, f64::INFINITY, f64::NEG_INFINITY, 1e300][i % 4]).collect();
+                let want0: Vec<f64> = (0..m).map(|i| a * ax[i]).collect();
+                clarabel::verif::gemv(&M, false, &mut y, &x, a, 0.0);
+                t.vec("gemv_N:dirty_output_buffer", &y, &want0, &json!({"M": inp, "x": x, "a": a, "b": 0.0}));
+            }
 
             let x = int_vec(rng, m, exact);
             let y0 = int_vec(rng, n, exact);
@@ -222,6 +229,12 @@ fn battery(t: &mut T, rng: &mut Rng, d: &Dense, pat: &[bool]) {
             let mut y = y0.clone();
             clarabel::verif::gemv(&M, true, &mut y, &x, a, b);
             t.vec("gemv_T", &y, &want, &json!({"M": inp, "x": x, "y": y0, "a": a, "b": b}));
+            if b == 0.0 {
+                let mut y: Vec<f64> = (0..n).map(|i| [f64::NAN, f64::INFINITY, f64::NEG_INFINITY, 1e300][i % 4]).collect();
+                let want0: Vec<f64> = (0..n).map(|i| a * atx[i]).collect();
+                clarabel::verif::gemv(&M, true, &mut y, &x, a, 0.0);
+                t.vec("gemv_T:dirty_output_buffer", &y, &want0, &json!({"M": inp, "x": x, "a": a, "b": 0.0}));
+            }
         }
     }
 
@@ -240,6 +253,12 @@ fn battery(t: &mut T, rng: &mut Rng, d: &Dense, pat: &[bool]) {
                 let mut y = y0.clone();
                 clarabel::verif::symv(&Mt, &mut y, &x, a, b);
                 t.vec("symv", &y, &want, &json!({"M": inpt, "x": x, "y": y0, "a": a, "b": b}));
+                if b == 0.0 {
+                    let mut y: Vec<f64> = (0..n).map(|i| [f64::NAN, f64::INFINITY, f64::NEG_INFINITY, 1e300][i % 4]).collect();
+                    let want0: Vec<f64> = (0..n).map(|i| a * sx[i]).collect();
+                    clarabel::verif::symv(&Mt, &mut y, &x, a, 0.0);
+                    t.vec("symv:dirty_output_buffer", &y, &want0, &json!({"M": inpt, "x": x, "a": a, "b": 0.0}));
+                }
             }
         }
         let x = int_vec(rng, n, exact);
